@@ -22,7 +22,7 @@ func TestC15(t *testing.T) {
 	mon.Main(t, mon.Check{
 		ID:    "C15",
 		Level: "exploration",
-		Rule: "three real connection types driven as net.Conn: (G) NoiseGrpcConn after real Client/ServerHandshake over an in-memory ProxyConn; (T) NoiseConn: client through mailbox.Dial with an in-memory dialer, server side wrapped as Listener.doHandshake does (hook); (K) the plain mailbox connKit: real ClientConn and ServerConn (GBN inside) over the in-memory relay, no noise. For each, PRNG sequences of writes (sizes from {0,1,2,32767,32768,32769,65534,65535} and random, beyond 65535 up to 300000 on the TCP variant) and PRNG sequences of read-buffer sizes from {1,2,3,17,4096,32767,32768,32769,65535,100000} (+0..2). Oracles per Read: 0 <= n <= len(buf), bytes beyond n untouched, the bytes returned are the next bytes of the written stream; at the end the concatenation of reads equals the concatenation of writes; per Write: n == len(b) with a nil error, or an error; a write larger than one record on the gRPC variant returns ErrMaxMessageLengthExceeded and nothing of it reaches the reader, on the TCP variant it is chunked transparently. A twelfth of the cases inject a transport write timeout into one record of the gRPC variant (header or body, nothing or half of it accepted), the caller retries once, and the reader must see exactly the bytes the Write calls reported as written. Non-trivial = a transfer that used at least one read buffer smaller than a record and one larger; distinct = (variant, sizes hash).",
+		Rule: "three real connection types driven as net.Conn: (G) NoiseGrpcConn after real Client/ServerHandshake over an in-memory ProxyConn; (T) NoiseConn: client through mailbox.Dial with an in-memory dialer, server side wrapped as Listener.doHandshake does (hook); (L) the same pair through the real mailbox.Listener and mailbox.Dial over loopback TCP; (K) the plain mailbox connKit: real ClientConn and ServerConn (GBN inside) over the in-memory relay, no noise. For each, PRNG sequences of writes (sizes from {0,1,2,32767,32768,32769,65534,65535} and random, beyond 65535 up to 300000 on the TCP variant) and PRNG sequences of read-buffer sizes from {1,2,3,17,4096,32767,32768,32769,65535,100000} (+0..2). Oracles per Read: 0 <= n <= len(buf), bytes beyond n untouched, the bytes returned are the next bytes of the written stream; at the end the concatenation of reads equals the concatenation of writes; per Write: n == len(b) with a nil error, or an error; a write larger than one record on the gRPC variant returns ErrMaxMessageLengthExceeded and nothing of it reaches the reader, on the TCP variant it is chunked transparently. A twelfth of the cases inject a transport write timeout into one record of the gRPC variant (header or body, nothing or half of it accepted), the caller retries once, and the reader must see exactly the bytes the Write calls reported as written. Non-trivial = a transfer that used at least one read buffer smaller than a record and one larger; distinct = (variant, sizes hash).",
 		Assumptions: []string{"a zero-length write produces an empty record; what Read returns for it (0 bytes) is not judged beyond the three clauses of the statement"},
 		NCases: func(tier string) int {
 			if tier == "thorough" {
@@ -170,15 +170,17 @@ func runC15WriteFault(c *mon.Case) {
 }
 
 func runC15(c *mon.Case) {
-	if c.Idx%12 == 11 {
+	if c.Idx%12 == 1 {
 		runC15WriteFault(c)
 		return
 	}
 	switch c.Idx % 6 {
 	case 0, 1, 2:
 		runC15Conn(c, "G")
-	case 3, 4:
+	case 3:
 		runC15Conn(c, "T")
+	case 4:
+		runC15Conn(c, "L")
 	default:
 		runC15Conn(c, "K")
 	}
@@ -203,6 +205,41 @@ func c15Pair(variant string, rng *rand.Rand) (a, b net.Conn, cleanup func(), err
 			return nil, nil, nil, fmt.Errorf("noise grpc handshake: %v / %v", ce, se)
 		}
 		return cc, sc, func() { cc.Close(); sc.Close() }, nil
+	case "L":
+		// the real Listener over loopback TCP and the real Dial
+		pass := eng.Entropy(rng)
+		keyC, keyS := eng.NewKey(rng), eng.NewKey(rng)
+		ln, err := mailbox.NewListener(pass, keyS, "127.0.0.1:0", []byte("auth"))
+		if err != nil {
+			return nil, nil, nil, fmt.Errorf("listener: %v", err)
+		}
+		type acc struct {
+			c   net.Conn
+			err error
+		}
+		ach := make(chan acc, 1)
+		go func() { c, err := ln.Accept(); ach <- acc{c, err} }()
+		cc, err := mailbox.Dial(keyC, ln.Addr(), pass, 5*time.Second, func(network, addr string, timeout time.Duration) (net.Conn, error) {
+			return net.DialTimeout(network, addr, timeout)
+		})
+		if err != nil {
+			ln.Close()
+			return nil, nil, nil, fmt.Errorf("dial: %v", err)
+		}
+		var a acc
+		select {
+		case a = <-ach:
+		case <-time.After(30 * time.Second):
+			ln.Close()
+			cc.Close()
+			return nil, nil, nil, fmt.Errorf("accept timed out")
+		}
+		if a.err != nil {
+			ln.Close()
+			cc.Close()
+			return nil, nil, nil, fmt.Errorf("accept: %v", a.err)
+		}
+		return cc, a.c, func() { cc.Close(); a.c.Close(); ln.Close() }, nil
 	case "T":
 		pass := eng.Entropy(rng)
 		da, db, _, _ := sim.NewDuplexPair()
@@ -276,7 +313,7 @@ func runC15Conn(c *mon.Case, variant string) {
 	}
 	defer cleanup()
 	maxW := 65535
-	if variant == "T" {
+	if variant == "T" || variant == "L" {
 		maxW = 300000
 	}
 	if variant == "K" {
@@ -287,10 +324,10 @@ func runC15Conn(c *mon.Case, variant string) {
 		nw = 3 + rng.Intn(5) // every record is a real GBN message over the relay
 	}
 	sizes := eng.RandSizesStream(rng, nw, maxW)
-	if variant == "T" && rng.Intn(2) == 0 {
+	if (variant == "T" || variant == "L") && rng.Intn(2) == 0 {
 		sizes[rng.Intn(nw)] = 65536 + rng.Intn(200000)
 	}
-	if variant == "T" && rng.Intn(3) == 0 {
+	if (variant == "T" || variant == "L") && rng.Intn(3) == 0 {
 		sizes[rng.Intn(nw)] = 65535 * (1 + rng.Intn(3)) // exact multiple
 	}
 	oversize := -1
